@@ -37,6 +37,7 @@ Fixpoint scan (p2 p1 : option byte) (s : str) : str :=
   end.
 Definition resub (s : str) := scan None None s.
 End Scan.
+Arguments is_esc : simpl never.
 
 Definition in_letters (l : str) (b : byte) : bool := bmem b l.
 
